@@ -20,7 +20,9 @@ EXTENDS Integers, Sequences, FiniteSets, SequencesExt, TLC
 \* ---------------------------------------------------------------- state values
 \* A session state value (sessionState in Go).  Resend carries its data; `p' is the
 \* pendingTimeout wrapper.
-SV(n) == [n |-> n, p |-> FALSE, stash |-> <<>>, rrEnd |-> 0, rrCur |-> 0]
+\* alloc: the Go stash map has been allocated (a nil map is allocated on a *copy* in processReject,
+\* so the receiver of resendState.FixMsgIn does not see the first entry - Q-U)
+SV(n) == [n |-> n, p |-> FALSE, stash |-> <<>>, rrEnd |-> 0, rrCur |-> 0, alloc |-> FALSE]
 Latent == SV("latent")
 LogonSt == SV("logon")
 LogoutSt == SV("logout")
@@ -34,7 +36,8 @@ IsSessionTime(v) == v.n # "notSessionTime"
 IsBareResend(v) == v.n = "resend" /\ ~v.p
 
 StashKeys(v) == DOMAIN v.stash
-WithStash(v, k, m) == [v EXCEPT !.stash = [x \in (DOMAIN v.stash) \cup {k} |-> IF x = k THEN m ELSE v.stash[x]]]
+WithStash(v, k, m) == [v EXCEPT !.alloc = TRUE,
+                                 !.stash = [x \in (DOMAIN v.stash) \cup {k} |-> IF x = k THEN m ELSE v.stash[x]]]
 WithoutStash(v, k) == [v EXCEPT !.stash = [x \in (DOMAIN v.stash) \ {k} |-> v.stash[x]]]
 
 \* ---------------------------------------------------------------- configuration
@@ -69,8 +72,11 @@ ClearLogs(s) == [s EXCEPT !.out = <<>>, !.cb = <<>>, !.tm = <<>>]
 \*   4 sequence reset  a = NewSeqNo        x = "Y" gap fill
 \*   3 reject   a = SessionRejectReason (-1 absent)  b = RefTagID (0 absent)  c = RefSeqNum (0 absent)
 \*   j business reject a = BusinessRejectReason       c = RefSeqNum
-\*   D application     x = body id;   replays: pd, c = 1 iff OrigSendingTime = original SendingTime
-Out(t, a, b, c, x) == [t |-> t, seq |-> 0, pd |-> FALSE, a |-> a, b |-> b, c |-> c, x |-> x]
+\*   D application     x = body id;   replays: pd, c = 1 (OrigSendingTime = original SendingTime) + 2 (body bytes identical)
+\* wf: BodyLength and CheckSum correct, exactly one of each (always expected);
+\* rt: routing header fields of a Reject in tag order (expected: the sender's, reversed)
+Out(t, a, b, c, x) == [t |-> t, seq |-> 0, pd |-> FALSE, a |-> a, b |-> b, c |-> c, x |-> x, wf |-> TRUE, rt |-> ""]
+RoutingReversed == "49=ENG|56=PEER|50=ESUB|57=PSUB|143=PLOC|115=DLV|128=OBO"
 
 Cb(k, t, seq, n) == [k |-> k, t |-> t, seq |-> seq, n |-> n]
 
@@ -84,34 +90,35 @@ PutSent(s, n, rec) == [s EXCEPT !.sent = [x \in (DOMAIN s.sent) \cup {n} |-> IF 
 Flush(s) ==
     IF s.conn
     THEN [s EXCEPT !.out = @ \o s.q, !.q = <<>>,
-                   !.tm = @ \o [i \in 1..Len(s.q) |-> <<"hb", s.hb>>]]
+                   !.tm = @ \o [i \in 1..Len(s.q) |-> <<"hb", s.hb * 1000>>]]
     ELSE s
 
 \* prepMessageForSend: number, ToAdmin/ToApp, reset on Logon 141=Y, persist.
 \* m is an outbound record; dns = the application refuses (ErrDoNotSend) an application message.
-\* Returns [s, ok, m].
-Prep(s, m, dns) ==
+\* ref = the application will decline to resend it later.  Returns [s, ok, m].
+Prep(s, m, dns, ref) ==
     LET admin == m.t \in {"A", "5", "0", "1", "2", "3", "4"}
-        s1 == [s EXCEPT !.cb = Append(@, Cb(IF admin THEN "ToAdmin" ELSE "ToApp", m.t, s.nOut, s.nIn))]
+        s1 == [s EXCEPT !.cb = Append(@, Cb(IF admin THEN "ToAdmin" ELSE "ToApp", IF admin THEN m.t ELSE "D", s.nOut, s.nIn))]
     IN IF ~admin /\ dns THEN [s |-> s1, ok |-> FALSE, m |-> m]
        ELSE
        LET s2 == IF m.t = "A" /\ m.x = "Y" THEN [StoreReset(s1) EXCEPT !.sentReset = TRUE] ELSE s1
            mm == [m EXCEPT !.seq = s2.nOut]
-           rec == [k |-> IF admin THEN "admin" ELSE "app", x |-> m.x, ref |-> m.b = 1 /\ ~admin]
+           rec == [k |-> IF admin THEN "admin" ELSE "app", x |-> IF admin THEN "" ELSE m.x, ref |-> ref,
+                   o |-> IF admin THEN Out(m.t, 0, 0, 0, "") ELSE mm]        \* administrative messages are never replayed
            s3 == IF s2.cfg.persist THEN PutSent(s2, s2.nOut, rec) ELSE s2
        IN [s |-> [s3 EXCEPT !.nOut = @ + 1], ok |-> TRUE, m |-> mm]
 
-QueueForSend(s, m, dns) ==
-    LET p == Prep(s, m, dns) IN IF p.ok THEN [p.s EXCEPT !.q = Append(@, p.m)] ELSE p.s
+QueueForSend(s, m, dns, ref) ==
+    LET p == Prep(s, m, dns, ref) IN IF p.ok THEN [p.s EXCEPT !.q = Append(@, p.m)] ELSE p.s
 
 \* sendInReplyTo: consults session.State, i.e. the state value registered *before* the
 \* handler returns (s.cur).
 SendReply(s, m) ==
-    IF ~IsLoggedOn(s.cur) THEN QueueForSend(s, m, FALSE)
-    ELSE LET p == Prep(s, m, FALSE) IN Flush([p.s EXCEPT !.q = Append(@, p.m)])
+    IF ~IsLoggedOn(s.cur) THEN QueueForSend(s, m, FALSE, FALSE)
+    ELSE LET p == Prep(s, m, FALSE, FALSE) IN Flush([p.s EXCEPT !.q = Append(@, p.m)])
 
 DropAndSend(s, m) ==
-    LET p == Prep(s, m, FALSE) IN Flush([p.s EXCEPT !.q = <<p.m>>])
+    LET p == Prep(s, m, FALSE, FALSE) IN Flush([p.s EXCEPT !.q = <<p.m>>])
 
 DropAndReset(s) == StoreReset([s EXCEPT !.q = <<>>])
 
@@ -128,7 +135,7 @@ RejectMsg(s, m, rej) ==
          ELSE Out("3", IF rej.reason > 11 /\ s.cfg.bs = 42 THEN -1 ELSE rej.reason, rej.tag, refseq, "")
     ELSE Out("3", -1, 0, refseq, "")
 
-DoReject(s, m, rej) == SendReply(s, RejectMsg(s, m, rej))
+DoReject(s, m, rej) == SendReply(s, [RejectMsg(s, m, rej) EXCEPT !.rt = RoutingReversed])
 
 \* sendResendRequest: returns [s, v] (the next resend state value, empty stash)
 SendRR(s, begin, end) ==
@@ -180,7 +187,8 @@ IsAdminType(t) == t \in {"A", "5", "0", "1", "2", "3", "4"}
 \* returns [s, rej]
 VerifyApp(s, m) ==
     IF m.val = "bad" THEN [s |-> s, rej |-> Rej(4, 58)]
-    ELSE LET s1 == [s EXCEPT !.cb = Append(@, Cb(IF IsAdminType(m.t) THEN "FromAdmin" ELSE "FromApp", m.t,
+    ELSE LET s1 == [s EXCEPT !.cb = Append(@, Cb(IF IsAdminType(m.t) THEN "FromAdmin" ELSE "FromApp",
+                                                   IF IsAdminType(m.t) THEN m.t ELSE "D",
                                                    IF m.seqc = "ok" THEN m.seq ELSE 0, s.nIn))]
          IN [s |-> s1,
              rej |-> CASE m.app = "rej" -> Rej(5, 55)
@@ -216,7 +224,7 @@ DoTargetTooLow(s, m) ==
       [] m.ost = "bad"  -> Ret(DoReject(s, m, Rej(6, 122)), InSess)
          \* SendingTime unreadable: falls into processReject's default branch, which
          \* advances the expected number on a too-low message (Q-P)
-      [] m.st = "missing" -> Ret([DoReject(s, m, Rej(1, 52)) EXCEPT !.nIn = @ + 1], InSess)
+      [] m.st = "missing" -> Ret([DoReject(s, m, BizRej(8)) EXCEPT !.nIn = @ + 1], InSess)   \* GetField: ConditionallyRequiredFieldMissing
       [] m.st = "bad"     -> Ret([DoReject(s, m, Rej(6, 52)) EXCEPT !.nIn = @ + 1], InSess)
       [] m.ost = "after" -> Ret(InitiateLogout(DoReject(s, m, Rej(10, 0)), FALSE), LogoutSt)
       [] OTHER -> Ret(s, InSess)
@@ -250,11 +258,11 @@ HandleLogon(s, m) ==
            vs == VerifySelect(s1, m, FALSE, TRUE, FALSE)
        IN IF vs.rej.k # "ok" THEN [s |-> s1, err |-> vs.rej]
           ELSE
-          LET s2 == IF acc /\ ~s1.cfg.hbOverride /\ m.hb > 0 THEN [s1 EXCEPT !.hb = m.hb] ELSE s1
+          LET s2 == IF acc /\ ~s1.cfg.hbOverride /\ m.hb # 0 THEN [s1 EXCEPT !.hb = m.hb] ELSE s1
               s3 == IF acc THEN DropAndSend(s2, Out("A", s2.hb, 0, 0, IF m.rsf = "Y" THEN "Y" ELSE ""))
                     ELSE s2
               s4 == [s3 EXCEPT !.sentReset = FALSE,
-                               !.tm = Append(@, <<"peer", s3.hb>>),
+                               !.tm = Append(@, <<"peer", s3.hb * 1200>>),
                                !.cb = Append(@, Cb("OnLogon", "", 0, s3.nIn))]
               th == CheckTooHigh(s4, m)
           IN IF th.k # "ok" THEN [s |-> s4, err |-> th]
@@ -277,7 +285,9 @@ ResendLoop(s, ks, i, cur, nxt) ==
             ELSE LET s1 == [s EXCEPT !.cb = Append(@, Cb("ToApp", "D", n, s.nIn))]     \* session.resend
                  IN IF rec.ref THEN ResendLoop(s1, ks, i + 1, cur, n + 1)              \* application declines
                     ELSE LET s2 == IF cur # n THEN SendGapFill(s1, cur, n) ELSE s1
-                             rp == [Out("D", 0, 0, 1, rec.x) EXCEPT !.seq = n, !.pd = TRUE]
+                             \* the stored message again, PossDup; for an application message the driver
+                             \* reports in c: 1 OrigSendingTime = original SendingTime, 2 body identical
+                             rp == IF rec.o.t = "D" THEN [rec.o EXCEPT !.pd = TRUE, !.c = 3] ELSE [rec.o EXCEPT !.pd = TRUE]
                          IN ResendLoop(EnqueueRaw(s2, rp), ks, i + 1, n + 1, n + 1)
 
 ResendMessages(s, b, e) ==
@@ -343,23 +353,24 @@ DrainStash(s, r, nx) ==
     IF s.nIn \in DOMAIN r.stash
     THEN LET msg == r.stash[s.nIn]
              r1 == WithoutStash(r, s.nIn)
-             h == InSessionIn(s, msg)
+             \* session.State still holds the registered value, whose map is the one being drained
+             h == InSessionIn([s EXCEPT !.cur.stash = r1.stash], msg)
              \* a drained message that is kept again (too high) lands in the shared map
-             r2 == IF h.nx.n = "resend" /\ IsBareResend(s.cur) THEN [r1 EXCEPT !.stash = h.nx.stash] ELSE r1
-             nx2 == IF h.nx.n = "resend" /\ IsBareResend(s.cur) THEN [h.nx EXCEPT !.stash = r2.stash] ELSE h.nx
+             r2 == IF h.nx.n = "resend" /\ IsBareResend(s.cur) /\ r1.alloc THEN [r1 EXCEPT !.stash = h.nx.stash] ELSE r1
+             nx2 == h.nx
          IN IF ~IsLoggedOn(nx2) THEN Ret(h.s, nx2) ELSE DrainStash(h.s, r2, nx2)
     ELSE Ret(s, nx)
 
 ResendIn(s, r, m) ==
     LET h == InSessionIn(s, m)
         \* aliasing: when processReject kept the current (bare) state, the receiver sees the new entry
-        r1 == IF h.nx.n = "resend" /\ IsBareResend(s.cur) THEN [r EXCEPT !.stash = h.nx.stash] ELSE r
+        r1 == IF h.nx.n = "resend" /\ IsBareResend(s.cur) /\ r.alloc THEN [r EXCEPT !.stash = h.nx.stash] ELSE r
         s1 == h.s
     IN IF ~IsLoggedOn(h.nx) THEN h
        ELSE IF r1.rrCur # 0 /\ r1.rrCur < s1.nIn
-            THEN LET q == SendRR(s1, s1.nIn, r1.rrEnd) IN Ret(q.s, [q.v EXCEPT !.stash = r1.stash])
+            THEN LET q == SendRR(s1, s1.nIn, r1.rrEnd) IN Ret(q.s, [q.v EXCEPT !.stash = r1.stash, !.alloc = r1.alloc])
        ELSE IF m.gf = "Y" /\ r1.rrCur # 0 /\ r1.rrCur = s1.nIn
-            THEN LET q == SendRR(s1, s1.nIn, r1.rrEnd) IN Ret(q.s, [q.v EXCEPT !.stash = r1.stash])
+            THEN LET q == SendRR(s1, s1.nIn, r1.rrEnd) IN Ret(q.s, [q.v EXCEPT !.stash = r1.stash, !.alloc = r1.alloc])
        ELSE IF r1.rrEnd >= s1.nIn THEN Ret(s1, r1)
        ELSE DrainStash(s1, r1, h.nx)
 
@@ -414,7 +425,7 @@ IncomingParsed(s, m) ==
     IF ~IsConnected(s.cur) THEN s
     ELSE LET s1 == IF m.t = "garbled" THEN s
                    ELSE LET h == FixMsgIn(s, m) IN SetState(h.s, h.nx)
-         IN [s1 EXCEPT !.tm = Append(@, <<"peer", s1.hb>>)]
+         IN [s1 EXCEPT !.tm = Append(@, <<"peer", s1.hb * 1200>>)]
 
 Drain(s) ==
     IF s.inbuf = <<>> THEN s
@@ -430,7 +441,7 @@ InSessionTimeout(s, ev) ==
     CASE ev = "NeedHeartbeat" -> Ret(SendReply(s, Out("0", 0, 0, 0, "")), InSess)
       [] ev = "PeerTimeout" ->
             LET s1 == SendReply(s, Out("1", 0, 0, 0, "TEST")) IN
-            Ret([s1 EXCEPT !.tm = Append(@, <<"peer", s1.hb>>)], [InSess EXCEPT !.p = TRUE])
+            Ret([s1 EXCEPT !.tm = Append(@, <<"peer", s1.hb * 1200>>)], [InSess EXCEPT !.p = TRUE])
       [] OTHER -> Ret(s, InSess)
 
 StateTimeout(s, ev) ==
@@ -475,7 +486,12 @@ OnFlush(s0) == LET s == ClearLogs(s0) IN IF IsLoggedOn(s.cur) THEN Flush(s) ELSE
 
 \* SendToTarget -> queueForSend; a = [x body id, dns refuse now, ref refuse on resend]
 OnSend(s0, a) ==
-    QueueForSend(ClearLogs(s0), [Out("D", 0, IF a.ref THEN 1 ELSE 0, 0, a.x) EXCEPT !.b = IF a.ref THEN 1 ELSE 0], a.dns)
+    QueueForSend(ClearLogs(s0), Out("D", 0, 0, 0, a.x), a.dns, a.ref)
+
+\* the run loop receives the oldest buffered frame
+OnConsume(s0) ==
+    LET s == ClearLogs(s0) IN
+    IF s.inbuf = <<>> THEN s ELSE IncomingParsed([s EXCEPT !.inbuf = Tail(@)], Head(s.inbuf))
 
 \* ---------------------------------------------------------------- one step, by event record
 \* ev.k in Connect Incoming Garbled Preload Timeout Stop Disconnected Flush Send
@@ -483,6 +499,7 @@ Step(s, ev) ==
     CASE ev.k = "Connect" -> OnConnect(s)
       [] ev.k = "Incoming" -> OnIncoming(s, ev.m)
       [] ev.k = "Preload" -> OnPreload(s, ev.m)
+      [] ev.k = "Consume" -> OnConsume(s)
       [] ev.k = "Timeout" -> OnTimeout(s, ev.e)
       [] ev.k = "Stop" -> OnStop(s)
       [] ev.k = "Disconnected" -> OnDisconnected(s)
@@ -492,10 +509,14 @@ Step(s, ev) ==
 \* what the driver reads back from the real session after every step
 StateName(v) == IF v.p THEN "pending(" \o v.n \o ")" ELSE v.n
 
+SentList(s) ==
+    LET ks == SetToSortSeq(DOMAIN s.sent, LAMBDA x, y : x < y)
+    IN [i \in 1..Len(ks) |-> [n |-> ks[i], k |-> s.sent[ks[i]].k, x |-> s.sent[ks[i]].x, ref |-> s.sent[ks[i]].ref]]
+
 Post(s) == [st |-> StateName(s.cur), nIn |-> s.nIn, nOut |-> s.nOut,
             stash |-> SetToSortSeq(StashKeys(s.cur), LAMBDA x, y : x < y),
             rrEnd |-> s.cur.rrEnd, rrCur |-> s.cur.rrCur, q |-> Len(s.q),
             sentReset |-> s.sentReset, conn |-> s.conn, hb |-> s.hb,
-            pstop |-> s.pstop, stopped |-> s.stopped,
-            nsent |-> Cardinality(DOMAIN s.sent), inbuf |-> Len(s.inbuf)]
+            pstop |-> s.pstop, stopped |-> s.stopped, ep |-> s.ct,
+            sent |-> SentList(s), inbuf |-> Len(s.inbuf)]
 =============================================================================
